@@ -11,7 +11,8 @@ Open Scope Z_scope.
 (* Tie to the source: the accounting of initializeUpstreamConnection / onUpstreamEvent / finalizeUpstreamConnectionStats
    has the shape the theorems below are proved for (the repaired shape, fix: close event before Connect returns):
    SetUpstreamHost, Increase and the two UpstreamConnectionActive++ in front of Connect(), given back exactly once in the
-   Connect error branch, the ConnectTimeout case does not finalize; one Increase in the file, every close event
+   Connect error branch, the ConnectTimeout case does not finalize; resource.Increase/Decrease count unconditionally
+   (fix c8b45b4d7); one Increase in the file, every close event
    finalizes, finalize = one Decrease guarded by the host. *)
 Theorem c10_l4_source_shape : RelayAcctSrc_translator_ok = true /\ acct_shape_ok = true.
 Proof. exact (conj eq_refl eq_refl). Qed.
@@ -20,21 +21,22 @@ Proof. exact (conj eq_refl eq_refl). Qed.
 Theorem c10_l4_source_is_verified_source : src_sw = sw_repaired.
 Proof. exact eq_refl. Qed.
 
-(* For EVERY history - any number of sessions, any interleaving of their events: accept, admission (CanCreate), each
+(* For EVERY history - any number of sessions, any interleaving of their events, and max_connections changed at any
+   moment by a cluster update (SetMax n: the counter is kept, the limit replaced): accept, admission (CanCreate), each
    connect attempt failing (refused / timed out / no host) or succeeding, INCLUDING a close event of the new upstream
    connection that is handled before Connect() returns, upstream close events (peer, idle/local, read error, write
    time-out), downstream close - for every max_connections (0 = unlimited) and number of attempts:
    every session holds 0 or 1 unit of the Connections resource, of the host's and the cluster's
    upstream_connection_active and of the handler's connection count, and nothing once it is over (each increment is
    matched by exactly one decrement when the session ends); the four counters are the sums of what the sessions hold:
-   = the number of relaying sessions (times 0 for an unlimited resource) / of sessions not over; never negative; all
-   zero when no session is live. *)
+   = the number of relaying sessions (also while the limit is 0 = unlimited) / of sessions not over; never negative;
+   all zero when no session is live. *)
 Theorem c10_l4_conserved : forall c evs,
   let g := run src_sw c evs in
   Forall (fun s => 0 <= h_res s <= 1 /\ 0 <= h_host s <= 1 /\ 0 <= h_clu s <= 1 /\ 0 <= h_down s <= 1 /\
                    (is_done s = true -> h_res s = 0 /\ h_host s = 0 /\ h_clu s = 0 /\ h_down s = 0)) (ss g) /\
   res g = sumf h_res (ss g) /\ g_host g = sumf h_host (ss g) /\ g_clu g = sumf h_clu (ss g) /\ g_down g = sumf h_down (ss g) /\
-  res g = unit_res c * count is_live (ss g) /\ g_host g = count is_live (ss g) /\ g_clu g = count is_live (ss g) /\
+  res g = count is_live (ss g) /\ g_host g = count is_live (ss g) /\ g_clu g = count is_live (ss g) /\
   g_down g = count (fun s => negb (is_done s)) (ss g) /\
   0 <= res g /\ 0 <= g_host g /\ 0 <= g_clu g /\ 0 <= g_down g /\
   (forallb is_done (ss g) = true -> res g = 0 /\ g_host g = 0 /\ g_clu g = 0 /\ g_down g = 0).
@@ -45,6 +47,10 @@ Example c10_l4_example : (* max_connections 2: two sessions relay, a third is re
   let evs := [Accept; Admit 0; Dial 0 ConnOk; Accept; Admit 1; Dial 1 ConnOk; Accept; Admit 2; UpClose 0; DownClose 1;
               Accept; Admit 3; Dial 3 ConnOkEarly] in
   map (fun n => res (run src_sw (mkCfg 2 1) (firstn n evs))) [3; 6; 8; 9; 10; 13]%nat = [1; 2; 2; 1; 0; 0] /\
+  (* unlimited, two connections open, the limit is set to 1: both are counted, a third is refused, the count returns to 0 *)
+  map (fun n => res (run src_sw (mkCfg 0 1) (firstn n [Accept; Admit 0; Dial 0 ConnOk; Accept; Admit 1; Dial 1 ConnOk; SetMax 1;
+                                                         Accept; Admit 2; DownClose 0; UpClose 1]))) [6; 7; 9; 11]%nat = [2; 2; 2; 0] /\
+  overflows (run src_sw (mkCfg 0 1) [Accept; Admit 0; Dial 0 ConnOk; Accept; Admit 1; Dial 1 ConnOk; SetMax 1; Accept; Admit 2]) = 1%nat /\
   overflows (run src_sw (mkCfg 2 1) evs) = 1%nat /\ g_down (run src_sw (mkCfg 2 1) evs) = 0 /\
   g_host (run src_sw (mkCfg 2 1) evs) = 0 /\ forallb is_done (ss (run src_sw (mkCfg 2 1) evs)) = true.
 Proof. vm_compute. repeat split; reflexivity. Qed.
@@ -59,28 +65,36 @@ Theorem c10_l4_old_shape_refuted :
 Proof. exact l4_old_statement_refuted. Qed.
 Print Assumptions c10_l4_old_shape_refuted.
 
-(* Threshold.  In every reachable state the admission test refuses exactly when the resource has reached
-   max_connections (m-th admitted, (m+1)-th refused) ... *)
-Theorem c10_l4_admission : forall c evs i s, 0 < maxc c ->
+(* Threshold.  In every reachable state - whatever the history did, limit changes included - the admission test refuses
+   exactly when the resource has reached the limit in force (m-th admitted, (m+1)-th refused) ... *)
+Theorem c10_l4_admission : forall c evs i s,
   let g := run src_sw c evs in
-  nth_error (ss g) i = Some s -> ph s = Accepted ->
+  0 < g_max g -> nth_error (ss g) i = Some s -> ph s = Accepted ->
   let g' := step src_sw c g (Admit i) in
-  (res g < maxc c -> overflows g' = overflows g /\
+  (res g < g_max g -> overflows g' = overflows g /\
        exists s', nth_error (ss g') i = Some s' /\ ph s' = match tries c with O => Done | S _ => Dialing (tries c) end) /\
-  (maxc c <= res g -> overflows g' = S (overflows g) /\ exists s', nth_error (ss g') i = Some s' /\ ph s' = Done).
+  (g_max g <= res g -> overflows g' = S (overflows g) /\ exists s', nth_error (ss g') i = Some s' /\ ph s' = Done).
 Proof. exact l4_admission_repaired. Qed.
 Print Assumptions c10_l4_admission.
 
 (* ... and when admissions do not overlap (no CanCreate test while another session is between its own test and the
-   end of its connect loop) the resource never exceeds max_connections. *)
-Theorem c10_l4_threshold_serial : forall c evs, 0 < maxc c ->
-  serial_from src_sw c g0 evs = true -> res (run src_sw c evs) <= maxc c.
+   end of its connect loop) and the limit is not changed, the resource never exceeds max_connections.  (Lowering the
+   limit below the number of open connections does not close any: after a SetMax the bound is the admission rule above.) *)
+Theorem c10_l4_threshold_serial : forall c evs, 0 < maxc c -> no_setmax evs = true ->
+  serial_from src_sw c (g0 c) evs = true -> res (run src_sw c evs) <= maxc c.
 Proof. exact l4_threshold_bound_repaired. Qed.
 Print Assumptions c10_l4_threshold_serial.
 
+(* The resource manager as it was before fix c8b45b4d7 (Increase/Decrease no-ops while max == 0; sw_nocount) did not keep
+   the counter non-negative once the limit is changed at run time: a connection opened while unlimited is not counted,
+   a limit is set, the connection closes -> -1 (and CanCreate takes a negative count for "free"). *)
+Theorem c10_l4_nocount_refuted : ~ (forall c evs, 0 <= res (run sw_nocount c evs)).
+Proof. exact l4_nocount_statement_refuted. Qed.
+Print Assumptions c10_l4_nocount_refuted.
+
 (* The threshold at ANY concurrency is FALSE for the code in the tree: CanCreate and Increase are separate steps (the
    repair narrowed the window from the whole dial to the connection set-up, it did not close it). *)
-Definition c10_l4_threshold_statement : Prop := forall c evs, 0 < maxc c -> res (run src_sw c evs) <= maxc c.
+Definition c10_l4_threshold_statement : Prop := forall c evs, 0 < maxc c -> no_setmax evs = true -> res (run src_sw c evs) <= maxc c.
 Theorem c10_l4_threshold_refuted : ~ c10_l4_threshold_statement.
 Proof. exact l4_threshold_refuted. Qed.
 Print Assumptions c10_l4_threshold_refuted.
